@@ -124,9 +124,13 @@ def parse_number(ex, which, v, st, n):
         ok = App(which + '_ok', (s,), BOOL)
         if not ex.branch(st, ok, raising='ValueError', node=n):
             raise PyExc(ExcV('ValueError'))
+        # float(s) is the opaque spec function str_num (specs/aggregates.py); int(s) agrees with it (A-NUMPARSE)
+        smt.FUNDEFS.setdefault('sp_str_num', smt.FunDef('sp_str_num', [('s', STR)], REAL))
+        fl = App('sp_str_num', (s,), REAL)
+        st.pc.append(Implies(App('int_ok', (s,), BOOL), Eq(fl, smt.ToReal(App('int_of', (s,), INT)))))
         if which == 'int':
             return SV(TInt, App('int_of', (s,), INT))
-        return SV(TFloat, App('float_of', (s,), REAL))
+        return SV(TFloat, fl)
     if k == 'cell':
         c = v.t
         # numbers pass through int()/float(); strings are parsed; anything else is a TypeError
